@@ -17,7 +17,8 @@ from .. import oracle as O
 from ..core import Stats, guarded, pmap
 from ..hist import fork_call
 
-RATES = ['D:1.1', 'D:1.2', 'D:1.3']
+RATES = ['D:1.1', 'D:1.2', 'D:1.25']
+JPY_RATES = ['i:110', 'i:150', 'i:100']      # cross USD->JPY: 100, 125, 80
 MAX_STACK = 4
 
 
@@ -31,10 +32,12 @@ class MoneySys:
         self.eur = Money.register_currency('EUR')
         self.usd = Money.register_currency('USD')
         self.jpy = Money.register_currency('JPY')
+        self.tnd = Money.register_currency('TND')
         self.convs = []
         for i in range(n):
             c = MoneyConverter(self.eur, lambda: date(2020, 3, 15))
-            c.update(None, [(self.usd, O.dec(RATES[i]), 1)])
+            c.update(None, [(self.usd, O.dec(RATES[i]), 1),
+                            (self.jpy, O.dec(JPY_RATES[i]), 1)])
             self.convs.append(c)
         self.stack = []        # model: indices, last = most recent
         self.open = []         # harness: open with-blocks (indices)
@@ -135,16 +138,29 @@ class MoneySys:
                             f"{repr(r) if err is None else type(err).__name__}, "
                             f"most recent converter c{self.stack[-1]} gives "
                             f"{want_amt}"))
+            # a cross rate (neither currency is the base currency)
+            cross = O.val(JPY_RATES[self.stack[-1]]) / \
+                O.val(RATES[self.stack[-1]])
+            try:
+                r2 = Money(F(10), self.usd).convert(self.jpy)
+                if O.fr(r2.amount) != 10 * cross:
+                    out.append(('C12:money:cross-uses-most-recent',
+                                f"10 USD -> JPY = {r2!r}, most recent "
+                                f"converter c{self.stack[-1]} gives "
+                                f"{10 * cross}"))
+            except Exception as exc:
+                out.append(('C12:money:cross-uses-most-recent',
+                            f"10 USD -> JPY: {type(exc).__name__}: {exc}"))
             # a pair the converter cannot answer
             try:
-                m.convert(self.jpy)
-                out.append(('C12:money:convert-unknown', "EUR -> JPY "
+                m.convert(self.tnd)
+                out.append(('C12:money:convert-unknown', "EUR -> TND "
                             "converted without a rate"))
             except quantity.UnitConversionError:
                 pass
             except Exception as exc:
                 out.append(('C12:money:convert-unknown',
-                            f"EUR -> JPY: {type(exc).__name__}"))
+                            f"EUR -> TND: {type(exc).__name__}"))
         return out
 
     def enabled(self):
